@@ -634,11 +634,7 @@ func (r *reader) read(src []byte) {
 			} else {
 				obj = String(src[r.tokenStart:r.pos])
 			}
-			if 0 < len(r.stack) {
-				r.stack = append(r.stack, obj)
-			} else {
-				r.code = append(r.code, obj)
-			}
+			r.pushObject(obj)
 			r.mode = valueMode
 		case pipeDone:
 			var obj Object
@@ -647,11 +643,7 @@ func (r *reader) read(src []byte) {
 			} else {
 				obj = Symbol(src[r.tokenStart:r.pos])
 			}
-			if 0 < len(r.stack) {
-				r.stack = append(r.stack, obj)
-			} else {
-				r.code = append(r.code, obj)
-			}
+			r.pushObject(obj)
 			r.mode = valueMode
 
 		case escByte:
@@ -776,11 +768,7 @@ func (r *reader) read(src []byte) {
 			r.mode = bitVectorMode
 		case bitVectorDone:
 			token := r.makeToken(src)
-			if 0 < len(r.stack) {
-				r.stack = append(r.stack, ReadBitVector(token))
-			} else {
-				r.code = append(r.code, ReadBitVector(token))
-			}
+			r.pushObject(ReadBitVector(token))
 			r.mode = valueMode
 			goto Retry
 
@@ -892,57 +880,58 @@ func (r *reader) closeList() {
 		} else {
 			obj = list
 		}
-		if 0 < start {
-			switch r.stack[start-1] {
-			case quoteMarker:
-				if newQuote == nil {
-					newQuote = CLPkg.GetFunc("quote").Create
-				}
-				obj = newQuote(List{obj})
-				start--
-				r.stack[start] = nil
-				r.stack = r.stack[:start+1]
-			case sharpQuoteMarker:
-				if newSharpQuote == nil {
-					newSharpQuote = CLPkg.GetFunc("function").Create
-				}
-				obj = newSharpQuote(List{obj})
-				start--
-				r.stack[start] = nil
-				r.stack = r.stack[:start+1]
-			case backquoteMarker:
-				if newBackquote == nil {
-					newBackquote = CLPkg.GetFunc("backquote").Create
-				}
-				obj = newBackquote(List{obj})
-				start--
-				r.stack[start] = nil
-				r.stack = r.stack[:start+1]
-			case commaMarker:
-				if newComma == nil {
-					newComma = CLPkg.GetFunc("comma").Create
-				}
-				obj = newComma(List{obj})
-				start--
-				r.stack[start] = nil
-				r.stack = r.stack[:start+1]
-			case commaAtMarker:
-				if newCommaAt == nil {
-					newCommaAt = CLPkg.GetFunc("comma-at").Create
-				}
-				obj = newCommaAt(List{obj})
-				start--
-				r.stack[start] = nil
-				r.stack = r.stack[:start+1]
-			}
-		}
 	}
-	if 0 < start {
-		r.stack[start] = obj
-		r.starts = r.starts[:len(r.starts)-1]
+	// Drop the slot of the list start and let pushObject apply any pending
+	// quote like markers before the list.
+	r.stack[start] = nil
+	r.stack = r.stack[:start]
+	r.starts = r.starts[:len(r.starts)-1]
+	r.pushObject(obj)
+}
+
+// pushObject applies any pending quote, function, backquote, comma, or
+// comma-at markers to the object and then pushes the result onto the stack or
+// code if the stack is empty.
+func (r *reader) pushObject(obj Object) {
+	for 0 < len(r.stack) {
+		var wrap func(args List) Object
+		switch r.stack[len(r.stack)-1] {
+		case quoteMarker:
+			if newQuote == nil {
+				newQuote = CLPkg.GetFunc("quote").Create
+			}
+			wrap = newQuote
+		case sharpQuoteMarker:
+			if newSharpQuote == nil {
+				newSharpQuote = CLPkg.GetFunc("function").Create
+			}
+			wrap = newSharpQuote
+		case backquoteMarker:
+			if newBackquote == nil {
+				newBackquote = CLPkg.GetFunc("backquote").Create
+			}
+			wrap = newBackquote
+		case commaMarker:
+			if newComma == nil {
+				newComma = CLPkg.GetFunc("comma").Create
+			}
+			wrap = newComma
+		case commaAtMarker:
+			if newCommaAt == nil {
+				newCommaAt = CLPkg.GetFunc("comma-at").Create
+			}
+			wrap = newCommaAt
+		}
+		if wrap == nil {
+			break
+		}
+		obj = wrap(List{obj})
+		r.stack[len(r.stack)-1] = nil
+		r.stack = r.stack[:len(r.stack)-1]
+	}
+	if 0 < len(r.stack) {
+		r.stack = append(r.stack, obj)
 	} else {
-		r.stack = r.stack[:0]
-		r.starts = r.starts[:0]
 		r.code = append(r.code, obj)
 	}
 }
@@ -961,77 +950,9 @@ func (r *reader) pushToken(src []byte) {
 		obj = nil
 		goto Push
 	}
-	if 0 < len(r.stack) {
-		switch r.stack[len(r.stack)-1] {
-		case quoteMarker:
-			if newQuote == nil {
-				newQuote = CLPkg.GetFunc("quote").Create
-			}
-			if len(r.stack) == 1 {
-				r.code = append(r.code, newQuote(List{Symbol(token)}))
-				r.stack[len(r.stack)-1] = nil
-				r.stack = r.stack[:0]
-			} else {
-				r.stack[len(r.stack)-1] = newQuote(List{Symbol(token)})
-			}
-			return
-		case sharpQuoteMarker:
-			if newSharpQuote == nil {
-				newSharpQuote = CLPkg.GetFunc("function").Create
-			}
-			if len(r.stack) == 1 {
-				r.code = append(r.code, newSharpQuote(List{Symbol(token)}))
-				r.stack[len(r.stack)-1] = nil
-				r.stack = r.stack[:0]
-			} else {
-				r.stack[len(r.stack)-1] = newSharpQuote(List{Symbol(token)})
-			}
-			return
-		case backquoteMarker:
-			if newBackquote == nil {
-				newBackquote = CLPkg.GetFunc("backquote").Create
-			}
-			if len(r.stack) == 1 {
-				r.code = append(r.code, newBackquote(List{Symbol(token)}))
-				r.stack[len(r.stack)-1] = nil
-				r.stack = r.stack[:0]
-			} else {
-				r.stack[len(r.stack)-1] = newBackquote(List{Symbol(token)})
-			}
-			return
-		case commaMarker:
-			if newComma == nil {
-				newComma = CLPkg.GetFunc("comma").Create
-			}
-			if len(r.stack) == 1 {
-				r.code = append(r.code, newComma(List{Symbol(token)}))
-				r.stack[len(r.stack)-1] = nil
-				r.stack = r.stack[:0]
-			} else {
-				r.stack[len(r.stack)-1] = newComma(List{Symbol(token)})
-			}
-			return
-		case commaAtMarker:
-			if newCommaAt == nil {
-				newCommaAt = CLPkg.GetFunc("comma-at").Create
-			}
-			if len(r.stack) == 1 {
-				r.code = append(r.code, newCommaAt(List{Symbol(token)}))
-				r.stack[len(r.stack)-1] = nil
-				r.stack = r.stack[:0]
-			} else {
-				r.stack[len(r.stack)-1] = newCommaAt(List{Symbol(token)})
-			}
-			return
-		}
-	}
 	obj = r.resolveToken(token)
 Push:
-	if 0 < len(r.stack) {
-		r.stack = append(r.stack, obj)
-	} else {
-		r.code = append(r.code, obj)
-	}
+	r.pushObject(obj)
 }
 
 func (r *reader) resolveToken(token []byte) Object {
@@ -1178,11 +1099,7 @@ func (r *reader) pushChar(src []byte) {
 	if c == 0 {
 		r.raise(`'#\%s' is not a valid character`, token)
 	}
-	if 0 < len(r.stack) {
-		r.stack = append(r.stack, c)
-	} else {
-		r.code = append(r.code, c)
-	}
+	r.pushObject(c)
 }
 
 func (r *reader) pushInteger(src []byte) {
@@ -1198,11 +1115,7 @@ func (r *reader) pushInteger(src []byte) {
 			r.raise("%s is not a valid base 2 integer", token)
 		}
 	}
-	if 0 < len(r.stack) {
-		r.stack = append(r.stack, obj)
-	} else {
-		r.code = append(r.code, obj)
-	}
+	r.pushObject(obj)
 }
 
 // String returns a string representation of the instance.
